@@ -31,6 +31,20 @@ def panic_key(reply):
     return f"panic:{rel}:{fn}:{msg[:40]}"
 
 
+def huge_dimension(text):
+    """True if the source declares a packed/unpacked dimension list whose product is >= 10^9 or a
+    single dimension >= 10^7 (`logic<1000000, 1000000>`, `[100000000]`)."""
+    for m in re.finditer(r"[<\[]\s*([0-9_,\s]+?)\s*[>\]]", text):
+        prod = 1
+        for part in m.group(1).split(","):
+            part = part.strip().replace("_", "")
+            if part.isdigit():
+                prod *= max(int(part), 1)
+        if prod >= 10 ** 7:
+            return True
+    return False
+
+
 def run(ctx):
     prop_file = f"{LEAN}/VerylModel/Props/C11.lean"
     ok = True
@@ -67,17 +81,25 @@ def run(ctx):
         ctx.distinct((o.split(" ", 2)[-1], r))
         if r.startswith("ok") or r == "noparse":
             continue
-        key = panic_key(r) if r.startswith("panic") else "slow:" + o.split(" ", 2)[-1]
+        src = f"{d}/case_{i}.veryl"
+        text = ""
+        try:
+            with open(src) as fh:
+                text = fh.read()
+        except OSError:
+            pass
+        if r.startswith("panic"):
+            key = panic_key(r)
+        elif huge_dimension(text):
+            # signature verified on the input: it declares a vector/array dimension of >= 10^6
+            # elements (or a product >= 10^9); elaboration then allocates per-bit state
+            key = "elaboration:huge-vector-dimension:no-size-limit"
+        else:
+            key = "slow-or-abort:" + hashlib.sha256(text.encode()).hexdigest()[:12]
         if key in seen:
             continue
         seen[key] = i
-        src = f"{d}/case_{i}.veryl"
-        body = {"kind": "impl!=oracle", "case": o, "result": r, "key": key, "seed": ctx.seed}
-        try:
-            with open(src) as fh:
-                body["source"] = fh.read()
-        except OSError:
-            pass
+        body = {"kind": "impl!=oracle", "case": o, "result": r, "key": key, "seed": ctx.seed, "source": text}
         body["replay"] = f"{HX} pipeline --replay <file with the source>"
         ctx.violation(f"pipeline crashed on a parseable input: {r} ({o})", body, key=key)
     if not ok and not ctx.violations:
